@@ -186,6 +186,11 @@ func main() {
 		if d.Pair != nil {
 			res = replayPair(d)
 		} else {
+			if d.PrefixFrom != nil {
+				for i := *d.PrefixFrom; i < d.RunIndex; i++ {
+					_ = execute(generate(d.Prop, d.Tier, d.BaseSeed, i))
+				}
+			}
 			res = execute(d)
 		}
 		res.Switches = nil
